@@ -8,7 +8,7 @@ use std::str::FromStr;
 
 use bignumber::Decimal256;
 use cosmwasm_std::{
-    to_binary, Addr, BankMsg, Binary, BlockInfo, Coin, CosmosMsg, Empty, Timestamp, Uint128,
+    to_binary, Addr, BankMsg, Binary, BlockInfo, Coin, CosmosMsg, Timestamp, Uint128,
     WasmMsg,
 };
 use cw20::{Cw20Coin, Cw20ExecuteMsg, Cw20ReceiveMsg, Expiration, MinterResponse};
@@ -353,7 +353,16 @@ impl Sim {
             .to_string();
         let rogue = chain
             .app
-            .instantiate_contract(CODE_ROGUE, owner, &Empty {}, &[], "rogue", None)
+            .instantiate_contract(
+                CODE_ROGUE,
+                owner,
+                &RogueInit {
+                    factory: Some(factory.clone()),
+                },
+                &[],
+                "rogue",
+                None,
+            )
             .expect("rogue instantiation")
             .to_string();
         chain.store.take_journal();
